@@ -1,5 +1,6 @@
 import NeumannModel.TxWal.Demo
 import NeumannModel.TxWal.LemmasSync
+import NeumannModel.TxWal.LemmasHandles
 /-
   C13 — 2PC coordinator restart preserves every logged decision.
   ONLY the property theorems and their non-vacuity examples; helpers are in `Lemmas.lean`.
@@ -17,6 +18,10 @@ import NeumannModel.TxWal.LemmasSync
   file instead; theorems that need the log to keep its records ask for `Cfg.NoRotate` at the start
   and `KeepsRecords` along the run: every restart configures a WAL that does not rotate, and
   `truncate_wal` is called only with no transaction pending.
+  The lock-handle theorems are about *counter runs* (`CounterRun`): a `lock tx h` step is a
+  `try_lock` of the lock manager, so `h` is the value of the process-wide counter, and a YES vote
+  carries a handle the lock table holds for the voting transaction (or one above the high-water
+  mark, which no lock manager hands out).  They need neither `Valid` nor `KeepsRecords`.
 -/
 namespace Neumann.TxWal.Props
 open Neumann.TxWal Neumann.FramedLog Neumann.TxWal.Demo
@@ -428,8 +433,9 @@ example : demoCfg.walCap = none := rfl
     fresh one; `replay` reads only the current file.  On the 40-byte demo WAL the PhaseChange ->
     Prepared of transaction 1 rotates the file: memory holds the transaction as Prepared (and
     `record_vote` answered Prepared), the file holds that single record, and a restart on the
-    whole file has forgotten the transaction.  (Not reachable within the property's 1–4
-    transactions at the default 1 GiB limit; reported by the harness as an observation.) -/
+    whole file has forgotten the transaction.  (Known finding
+    `tensor_chain.tx_wal.rotate/in_flight_transactions_dropped`: the harness reproduces it on the
+    real coordinator with a small `max_size_bytes` on every run.) -/
 theorem rotation_forgets_prepared_witness :
     let c := run Crc32.crc32 toySer toyDe { cfg := demoRotCfg } (demoSteps.take 6)
     (mLookup 1 c.pending).map (·.phase) = some .prepared
@@ -441,7 +447,9 @@ theorem rotation_forgets_prepared_witness :
 /-- **`truncate_wal` with a transaction pending forgets it.**  `truncate_wal()` replaces the file by
     an empty one whatever is pending (`KeepsRecords` asks for `pending = []` at that point).  After
     the demo's transaction 1 became Prepared, a truncation leaves it Prepared in memory and a
-    restart on the (empty) file has forgotten it. -/
+    restart on the (empty) file has forgotten it.  (Known finding
+    `tensor_chain.distributed_tx.truncate_wal/in_flight_transactions_dropped`, reproduced by the
+    harness on the real coordinator on every run.) -/
 theorem truncate_forgets_prepared_witness :
     let c := run Crc32.crc32 toySer toyDe { cfg := demoCfg } (demoSteps.take 6 ++ [.truncate])
     (mLookup 1 c.pending).map (·.phase) = some .prepared
@@ -450,6 +458,146 @@ theorem truncate_forgets_prepared_witness :
     ∧ Valid Crc32.crc32 toySer toyDe { cfg := demoCfg } (demoSteps.take 6 ++ [.truncate])
     ∧ ¬ KeepsRecords Crc32.crc32 toySer toyDe { cfg := demoCfg } (demoSteps.take 6 ++ [.truncate]) := by
   decide
+
+/-! ### lock handles across a restart -/
+
+/-- **Recovery moves the handle counter past everything it restores** (0358827a).  For every
+    coordinator state and every log: after `recover_from_wal` the counter of the process is not
+    below where it was, and it is above every lock handle (below the high-water mark, i.e. every
+    handle a lock manager can have handed out) that the recovery carries — the YES votes of every
+    transaction the scan classifies as Prepared / Committing / Aborting, which are the handles of
+    the transactions it restores, and every orphaned lock. -/
+theorem recovery_moves_counter_past_restored_handles (c : Coord) (now : Nat) :
+    c.nextHandle ≤ (recoverFromWal c now).1.nextHandle
+    ∧ (∀ x ip, (x, ip) ∈ (scan c.log).inProgress →
+        ip.phase = .prepared ∨ ip.phase = .committing ∨ ip.phase = .aborting →
+        ∀ h ∈ yesHandles ip.votes, h < highWater → h < (recoverFromWal c now).1.nextHandle)
+    ∧ (∀ p ∈ (fromEntries c.log).orphaned, p.2 < highWater → p.2 < (recoverFromWal c now).1.nextHandle)
+    ∧ (∀ x tx, (x, tx) ∈ (recoverFromWal c now).1.pending → (x, tx) ∉ c.pending →
+        ∀ h ∈ voteHandles tx.votes, h < highWater → h < (recoverFromWal c now).1.nextHandle) := by
+  refine ⟨recover_counter_ge c now, ?_, fun p hp hw => recover_counter_past_orphans c now p hp hw, ?_⟩
+  · intro x ip hm hd h hh hw
+    exact recover_counter_past_decided c now x ip ((ipOf_iff_mem _ _ _).mpr hm) hd h hh hw
+  · intro x tx hm hn h hh hw
+    rcases recover_pending c now x tx hm with hm' | ⟨ip, hip, hd, hsub⟩
+    · exact absurd hm' hn
+    · exact recover_counter_past_decided c now x ip hip hd h (hsub h hh) hw
+
+-- non-vacuity: a new process (counter at 1) on the demo log cut after the PhaseChange -> Prepared
+-- restores transaction 1 with handles 7 and 8 and moves its counter to 9; a handle above the
+-- high-water mark (one no lock manager hands out) does not move it
+example : (restartLog demoCfg (demoPre.log.take 5) 200).nextHandle = 9
+    ∧ (mLookup 1 (restartLog demoCfg (demoPre.log.take 5) 200).pending).map (fun t => voteHandles t.votes)
+        = some [8, 7] := by decide
+example : (restartLog demoCfg [.txBegin 1 [0], .prepareVote 1 0 (.yes (highWater + 5)),
+    .phaseChange 1 .preparing .prepared] 200).nextHandle = 1 := by decide
+example : highWater = 16602069666338596449 := by decide
+-- an aborted transaction leaves its lock orphaned in the log (`abort` writes no LockRelease
+-- records): the restarted process starts handing out handles after it
+example : (fromEntries [.txBegin 1 [0], .prepareVote 1 0 (.yes 1), .phaseChange 1 .preparing .prepared,
+      .phaseChange 1 .prepared .aborting, .txComplete 1 .aborted]).orphaned = [(1, 1)]
+    ∧ (restartLog demoCfg [.txBegin 1 [0], .prepareVote 1 0 (.yes 1), .phaseChange 1 .preparing .prepared,
+      .phaseChange 1 .prepared .aborting, .txComplete 1 .aborted] 200).nextHandle = 2 := by decide
+
+/-- **A handle is never handed out twice across restarts, and finishing a transaction never
+    releases another transaction's lock.**  Take any run — any mix of operations, WAL writes
+    failing or rotating, `truncate_wal`, crashes at any byte with restarts under any
+    configurations, `recover_from_wal` on the live coordinator — that starts from a fresh
+    coordinator or from a restart on ANY log, takes its locks through the lock manager
+    (`try_lock` returns the value of the counter) and whose YES votes carry a handle the lock
+    table holds for the voting transaction (or one above the high-water mark).  In the state it
+    reaches:
+    (1) the handle the next `try_lock` returns is held by nobody, is not the handle of a YES vote
+        of any pending transaction, and is not a handle the log holds for a decided or pending
+        transaction or as an orphaned lock (so a restart cannot bring it back either);
+    (2) when commit / abort / complete_commit / complete_abort / force_resolve succeeds for a
+        transaction, or cleanup_timeouts runs, every lock another transaction holds (handle below
+        the high-water mark) is still in the lock table afterwards; and `recover_from_wal` called
+        on the live coordinator removes only locks held for a transaction whose completion the log
+        records with that lock unreleased (its orphaned locks).
+    Before 0358827a a restart broke (1) and (2): `stale_handle_releases_foreign_lock_witness`. -/
+theorem finishing_a_transaction_releases_only_its_own_locks (c0 : Coord) (steps : List Step)
+    (h0 : (∃ cfg, c0 = { cfg := cfg }) ∨ ∃ cfg es now, c0 = restartLog cfg es now)
+    (hrun : CounterRun crc ser de c0 steps) :
+    ((∀ t, ((run crc ser de c0 steps).nextHandle, t) ∉ (run crc ser de c0 steps).locks)
+      ∧ (∀ x tx, (x, tx) ∈ (run crc ser de c0 steps).pending →
+          (run crc ser de c0 steps).nextHandle < highWater →
+          (run crc ser de c0 steps).nextHandle ∉ voteHandles tx.votes)
+      ∧ (∀ x ip, (x, ip) ∈ (scan (run crc ser de c0 steps).log).inProgress →
+          ip.phase = .prepared ∨ ip.phase = .committing ∨ ip.phase = .aborting
+            ∨ x ∈ mKeys (run crc ser de c0 steps).pending →
+          (run crc ser de c0 steps).nextHandle < highWater →
+          (run crc ser de c0 steps).nextHandle ∉ yesHandles ip.votes)
+      ∧ (∀ p ∈ (fromEntries (run crc ser de c0 steps).log).orphaned,
+          (run crc ser de c0 steps).nextHandle < highWater → p.2 ≠ (run crc ser de c0 steps).nextHandle))
+    ∧ (∀ s id tx, (s = Step.commit id ∨ s = Step.abort id ∨ s = Step.completeCommit id
+                    ∨ s = Step.completeAbort id ∨ ∃ b, s = Step.forceResolve id b) →
+        mLookup id (run crc ser de c0 steps).pending = some tx →
+        (step crc ser de (run crc ser de c0 steps) s).2 = Res.ok →
+        ∀ h t, (h, t) ∈ (run crc ser de c0 steps).locks → t ≠ id → h < highWater →
+          (h, t) ∈ (step crc ser de (run crc ser de c0 steps) s).1.locks)
+    ∧ (∀ now h t, (h, t) ∈ (run crc ser de c0 steps).locks → h < highWater →
+        (∀ id tx, (id, tx) ∈ (run crc ser de c0 steps).pending → tx.timedOut now = true → t ≠ id) →
+        (h, t) ∈ (cleanupTimeouts (run crc ser de c0 steps) now).1.locks)
+    ∧ (∀ now h t, (h, t) ∈ (run crc ser de c0 steps).locks → h < highWater →
+        (∀ p ∈ (fromEntries (run crc ser de c0 steps).log).orphaned, p.1 ≠ t) →
+        (h, t) ∈ (recoverFromWal (run crc ser de c0 steps) now).1.locks) := by
+  have hi0 : HInv c0 := by
+    rcases h0 with ⟨cfg, rfl⟩ | ⟨cfg, es, now, rfl⟩
+    · exact HInv_fresh cfg
+    · exact HInv_restartLog cfg es now
+  have hi := HInv_run crc ser de c0 steps hi0 hrun
+  generalize run crc ser de c0 steps = c at hi
+  refine ⟨⟨?_, ?_, ?_, ?_⟩, ?_, ?_, ?_⟩
+  · intro t hm
+    exact Nat.lt_irrefl _ (hi.below _ t hm)
+  · intro x tx hm hw hh
+    exact Nat.lt_irrefl _ (hi.mem x tx hm _ hh hw).1
+  · intro x ip hm hp hw hh
+    have hp' : Decided ip.phase ∨ x ∈ mKeys c.pending := by
+      rcases hp with h | h | h | h
+      · exact Or.inl (Or.inl h)
+      · exact Or.inl (Or.inr (Or.inl h))
+      · exact Or.inl (Or.inr (Or.inr h))
+      · exact Or.inr h
+    exact Nat.lt_irrefl _ (hi.log x ip ((ipOf_iff_mem _ _ _).mpr hm) hp' _ hh hw).1
+  · intro p hp hw he
+    have := (hi.orph p hp (by rw [he]; exact hw)).1
+    rw [he] at this
+    exact Nat.lt_irrefl _ this
+  · intro s id tx hs hl hok h t hm hne hw
+    rw [step_ok_locks crc ser de c s id tx hs hl hok, mem_releaseAll]
+    refine ⟨hm, ?_⟩
+    intro hh
+    exact hne ((hi.mem id tx (mLookup_some_mem _ _ _ hl) h hh hw).2 t hm)
+  · intro now h t hm hw hne
+    simp only [cleanupTimeouts, mem_releaseAll]
+    refine ⟨hm, ?_⟩
+    intro hh
+    simp only [List.mem_flatMap, List.mem_filter] at hh
+    obtain ⟨⟨id, tx⟩, ⟨hp, hto⟩, hin⟩ := hh
+    exact hne id tx hp hto ((hi.mem id tx hp h hin hw).2 t hm)
+  · intro now h t hm hw hne
+    simp only [recoverFromWal, mem_releaseAll]
+    refine ⟨hm, ?_⟩
+    intro hh
+    simp only [List.mem_map] at hh
+    obtain ⟨p, hp, rfl⟩ := hh
+    exact hne p hp ((hi.orph p hp hw).2 t hm).symm
+
+-- non-vacuity: the restarted process of the example above begins transaction 2, locks for it
+-- (the counter hands out 9), records its YES vote and commits the recovered transaction 1: a
+-- counter run, after which transaction 2 still holds its lock
+example : CounterRun Crc32.crc32 toySer toyDe (restartLog demoCfg (demoPre.log.take 5) 200)
+      [.begin 2 [0] 300, .lock 2 9, .vote 2 0 (.yes 9) false, .commit 1]
+    ∧ (run Crc32.crc32 toySer toyDe (restartLog demoCfg (demoPre.log.take 5) 200)
+        [.begin 2 [0] 300, .lock 2 9, .vote 2 0 (.yes 9) false, .commit 1]).locks = [(9, 2)]
+    ∧ (step Crc32.crc32 toySer toyDe (run Crc32.crc32 toySer toyDe (restartLog demoCfg (demoPre.log.take 5) 200)
+        [.begin 2 [0] 300, .lock 2 9, .vote 2 0 (.yes 9) false]) (.commit 1)).2 = Res.ok := by decide
+-- ... and a counter run from a fresh coordinator: two transactions, each voting with its own lock
+example : CounterRun Crc32.crc32 toySer toyDe { cfg := demoCfg }
+      [.begin 1 [0] 100, .lock 1 1, .vote 1 0 (.yes 1) false, .begin 2 [0] 100, .lock 2 2, .vote 2 0 (.yes 2) false,
+       .abort 1] := by decide
 
 /-! ### the defects the fixes removed, as concrete witnesses -/
 
@@ -489,6 +637,31 @@ theorem rejected_vote_overwrites_witness :
     ∧ ((fromEntries log).prepared.map (fun r => (restoreTx r .prepared 0).votes)) = [[(1, Vote.yes 8), (0, Vote.yes 7)]]
     ∧ (mLookup 1 (run Crc32.crc32 toySer toyDe { cfg := demoCfg } (demoSteps.take 6)).pending).map (·.votes)
         = some [(1, Vote.yes 8), (0, Vote.yes 7)] := by
+  decide
+
+/-- **Pre-fix `recover_from_wal` (the handle counter stays where the new process started it).**
+    Process 1 begins transaction 1, locks for it (the counter hands out handle 1), records its
+    YES vote — Prepared, logged — and dies.  The new process starts its counter at 1 again.  With
+    the old recovery transaction 1 comes back holding handle 1 while the counter still stands at
+    1: transaction 2 begins, its `try_lock` is handed handle 1 too, it votes YES and is Prepared;
+    committing the recovered transaction 1 then releases handle 1 — the lock table is empty
+    although transaction 2 is still Prepared.  With the current recovery the counter stands at 2
+    after the restart, transaction 2 is handed handle 2 and keeps its lock. -/
+theorem stale_handle_releases_foreign_lock_witness :
+    let c1 := run Crc32.crc32 toySer toyDe { cfg := demoCfg } [.begin 1 [0] 100, .lock 1 1, .vote 1 0 (.yes 1) false]
+    let old := restartLogOld demoCfg c1.log 200
+    let new := restartLog demoCfg c1.log 200
+    let after := fun (c : Coord) => run Crc32.crc32 toySer toyDe c
+      [.begin 2 [0] 300, .lock 2 c.nextHandle, .vote 2 0 (.yes c.nextHandle) false, .commit 1]
+    CounterRun Crc32.crc32 toySer toyDe { cfg := demoCfg } [.begin 1 [0] 100, .lock 1 1, .vote 1 0 (.yes 1) false]
+    ∧ c1.nextHandle = 2
+    ∧ (mLookup 1 old.pending).map (fun t => (t.phase, t.votes)) = some (.prepared, [(0, Vote.yes 1)])
+    ∧ old.nextHandle = 1
+    ∧ (after old).locks = []
+    ∧ (mLookup 2 (after old).pending).map (fun t => (t.phase, t.votes)) = some (.prepared, [(0, Vote.yes 1)])
+    ∧ new.nextHandle = 2
+    ∧ (after new).locks = [(2, 2)]
+    ∧ (mLookup 2 (after new).pending).map (fun t => (t.phase, t.votes)) = some (.prepared, [(0, Vote.yes 2)]) := by
   decide
 
 end Neumann.TxWal.Props
